@@ -441,13 +441,17 @@ long vorbis_book_decodevv_add(codebook *book,float **a,long offset,int ch,
   long i,j,entry;
   int chptr=0;
   if(book->used_entries>0){
-    int m=(offset+n)/ch;
-    for(i=offset/ch;i<m;){
+    /* offset and n count scalars of the interleaved vector; neither
+       has to be a multiple of the channel count */
+    long p=offset;
+    long end=offset+n;
+    chptr=offset%ch;
+    for(i=offset/ch;p<end;){
       entry = decode_packed_entry_number(book,b);
       if(entry==-1)return(-1);
       {
         const float *t = book->valuelist+entry*book->dim;
-        for (j=0;i<m && j<book->dim;j++){
+        for (j=0;p<end && j<book->dim;j++,p++){
           a[chptr++][i]+=t[j];
           if(chptr==ch){
             chptr=0;
